@@ -121,6 +121,38 @@ var allPackHelpers, allUnpackHelpers = func() (map[string]bool, map[string]bool)
 
 // ---- RFC layout table (independent of the code; authored from the RFCs, see DESIGN.md Appendix B) ----
 
+// rfcFieldOrder: RDATA field order by (Go) field name for every type with more than one wire field, authored
+// from the RFCs' RDATA format sections (RFC 1035 s.3.3, 1183, 1712, 1876, 2163, 2230, 2782, 3403, 4034, 4025, 4255,
+// 4398, 5155, 6698, 6742, 7477, 7553, 8005, 8659, 8777, 8945, 8976, 9460, 2930). Embedded types use their base's order.
+var rfcFieldOrder = map[string]string{
+	"HINFO": "Cpu Os", "MINFO": "Rmail Email", "MX": "Preference Mx", "AFSDB": "Subtype Hostname",
+	"ISDN": "Address SubAddress", "RT": "Preference Host", "RP": "Mbox Txt",
+	"SOA":   "Ns Mbox Serial Refresh Retry Expire Minttl",
+	"SRV":   "Priority Weight Port Target",
+	"NAPTR": "Order Preference Flags Service Regexp Replacement",
+	"CERT":  "Type KeyTag Algorithm Certificate",
+	"PX":    "Preference Map822 Mapx400", "GPOS": "Longitude Latitude Altitude",
+	"LOC":   "Version Size HorizPre VertPre Latitude Longitude Altitude",
+	"RRSIG": "TypeCovered Algorithm Labels OrigTtl Expiration Inception KeyTag SignerName Signature",
+	"SIG":   "TypeCovered Algorithm Labels OrigTtl Expiration Inception KeyTag SignerName Signature",
+	"NSEC":  "NextDomain TypeBitMap", "NXT": "NextDomain TypeBitMap",
+	"DS": "KeyTag Algorithm DigestType Digest", "CDS": "KeyTag Algorithm DigestType Digest", "DLV": "KeyTag Algorithm DigestType Digest", "TA": "KeyTag Algorithm DigestType Digest",
+	"KX": "Preference Exchanger", "TALINK": "PreviousName NextName", "SSHFP": "Algorithm Type FingerPrint",
+	"DNSKEY": "Flags Protocol Algorithm PublicKey", "KEY": "Flags Protocol Algorithm PublicKey", "CDNSKEY": "Flags Protocol Algorithm PublicKey", "RKEY": "Flags Protocol Algorithm PublicKey",
+	"IPSECKEY": "Precedence GatewayType Algorithm GatewayHost PublicKey",
+	"AMTRELAY": "Precedence GatewayType GatewayHost",
+	"NSEC3":      "Hash Flags Iterations SaltLength Salt HashLength NextDomain TypeBitMap",
+	"NSEC3PARAM": "Hash Flags Iterations SaltLength Salt",
+	"TKEY":       "Algorithm Inception Expiration Mode Error KeySize Key OtherLen OtherData",
+	"URI":        "Priority Weight Target",
+	"TLSA":       "Usage Selector MatchingType Certificate", "SMIMEA": "Usage Selector MatchingType Certificate",
+	"HIP": "HitLength PublicKeyAlgorithm PublicKeyLength Hit PublicKey RendezvousServers",
+	"NID": "Preference NodeID", "L32": "Preference Locator32", "L64": "Preference Locator64", "LP": "Preference Fqdn",
+	"CAA": "Flag Tag Value", "CSYNC": "Serial Flags TypeBitMap", "ZONEMD": "Serial Scheme Hash Digest",
+	"SVCB": "Priority Target Value", "HTTPS": "Priority Target Value",
+	"TSIG": "Algorithm TimeSigned Fudge MACSize MAC OrigId Error OtherLen OtherData",
+}
+
 var rfcLayout = map[string]string{
 	"A": "v4", "NS": "C", "MD": "C", "MF": "C", "CNAME": "C", "MB": "C", "MG": "C", "MR": "C", "PTR": "C",
 	"SOA":   "C C u32 u32 u32 u32 u32",
